@@ -18,7 +18,10 @@ RULE = ("Hypothesis draws an invertible A = X diag(lam) X^-1 (real non-symmetric
         "multi-column, or complex. Complex operators also get real right-hand sides with x0 omitted. Sub-check spread: a "
         "normal operator with two eigenvalues 1e-2..1e-8 below the rest and columns [combination of large eigenvectors | "
         "eigenvector, eigenvectors of the small eigenvalues]: every eigenvector column has grade 1 and must be solved in one "
-        "step whatever the other columns look like, no column may end above its initial residual.")
+        "step whatever the other columns look like, no column may end above its initial residual."
+        " Further: normal operators with condition number 1e3 under tolerances 1e-3..1e-6, judged strictly where the"
+        " tolerance provably cannot trigger; systems rescaled by 10^-2..10^6; complex guesses for all-real systems;"
+        " the caller's b and x0 must be unchanged; pbar=True.")
 ASSUMPTIONS = [
     "tolerances >= 1e-6 are judged only where they cannot trigger: no sub-diagonal entry of the reference Arnoldi relation below 4 tol h21 (or 2 tol, cola's absolute clip) and no Hessenberg column below 40 tol max|H| (gmres masks columns below 10 tol max|H| as padding); otherwise the iterate only promises |r| <~ tol cond(A) |r0| and the case is counted inconclusive",
     "residuals compared at 1e-6 relative plus 1e3*eps*cond(X)*(|A||x|+|b|) plus 1e-6*|r0| (residuals below 1e-6 |r0| count as zero: iterations continued past a breakdown with tol near rounding level leave ~1e-9..1e-7 |r0|); matrices have cond(X) <= ~5 and |lam| in [0.5, 4]",
